@@ -99,7 +99,7 @@ def run(prop, tier, seed, out):
             for i, (c, f) in enumerate(f_exp):
                 g = must_pass(f.result(), "FsSeq export")
                 cfgp = scr.path("fcfg-%d.json" % i)
-                json.dump({"max_bytes": c[0], "max_files": c[1], "dur_on": c[2], "toor": c[3], "mode": c[4], "seed": seed}, open(cfgp, "w"))
+                json.dump({"max_bytes": c[0], "max_files": c[1], "dur_on": c[2], "toor": c[3], "mode": c[4], "seed": seed, "neg": i % 2 == 0}, open(cfgp, "w"))
                 outp = scr.path("frep-%d.json" % i)
                 t0 = time.time()
                 p = run_vh(vh, ["fs-replay", "-cfg", cfgp, "-edges", g.out_path, "-out", outp, "-par", "16"], timeout=2400)
